@@ -146,6 +146,12 @@ func floatExitOracle(o *Out, line string, text string, data string) {
 	}
 	d, ok := raw.(*decimal.Big)
 	f, ok2 := pub.(float64)
+	if ok && ok2 && d.IsInf(0) {
+		if !math.IsInf(f, 1) && !d.Signbit() || !math.IsInf(f, -1) && d.Signbit() {
+			o.Fail(line, fmt.Sprintf("an infinite decimal result %s was handed back as %v", d.String(), f))
+		}
+		return
+	}
 	if !ok || !ok2 || !d.IsFinite() {
 		return
 	}
@@ -270,6 +276,10 @@ func suiteArith(o *Out, thorough bool, seed int64) {
 		}
 	}
 	emitEval(o, "0.1 + 0.2 === 0.3", 0, "-", "-", true)
+	for _, t := range []string{"1/0", "-1/0", "(-1)/0", "1/(-0)", "0/0", "1e30 * 1e30 / 0"} {
+		emitEval(o, t, 0, "-", "-", true)
+		floatExitOracle(o, fmt.Sprintf("EV\t%s\t0\t-\t-", hx([]byte(t))), t, "-")
+	}
 	// exact ties at 34 digits (half-even), also after round()/roundBank() were evaluated in this process
 	ties := func(tag string) {
 		for i := 0; i < 40; i++ {
@@ -825,12 +835,12 @@ func suiteNames(o *Out, thorough bool, seed int64) {
 	inner := wmap("k", "Ii:1", "z", "Ii:0", "s", ws("str"), "n", "N", "p", "P", "b", "F", "deep", wmap("k", "Ii64:-5", "f", "G"+hx([]byte("2.5")), "u", "Iu8:3"))
 	data := wmap("a", inner, "b", wmap("a", inner), "n", "N", "p", "P", "len", "Ii:99", "max", ws("shadow"), "num", "Ii32:7", "str", ws("x"),
 		"t", "M0:0", "arr", "A1 Ii:1", "i8", "Ii8:5", "f", "G"+hx([]byte("0.25")), "tr", "T",
-		"pi", "G"+hx([]byte("3.141592653589793")), "amt", "G"+hx([]byte("1234567.891")), "big", "G"+hx([]byte("16777217")), "i64", "Ii64:9007199254740993", "neg", "Ii32:-2147483648", "tiny", "G"+hx([]byte("0.000001234567891")))
+		"tm", "Q3 S"+hx([]byte("a"))+" Ii:0 S"+hx([]byte("b"))+" Ii:5 S"+hx([]byte("z"))+" Ii:-1", "pi", "G"+hx([]byte("3.141592653589793")), "amt", "G"+hx([]byte("1234567.891")), "big", "G"+hx([]byte("16777217")), "i64", "Ii64:9007199254740993", "neg", "Ii32:-2147483648", "tiny", "G"+hx([]byte("0.000001234567891")))
 	keys := []string{"a", "b", "k", "z", "n", "p", "deep", "missing", "len", "s"}
 	seps := []string{".", "!."}
 	// every path of depth 0..3 over the key universe with . / !. at each position (roots: data names and this)
 	roots := []string{"a", "b", "n", "p", "len", "max", "num", "str", "missing", "this", "arr", "i8", "f", "tr"}
-	for _, t := range []string{"pi", "amt", "big", "i64", "neg", "tiny", "this.pi", "this.amt", "amt == 1234567.891", "big - 16777216", "pi * 2", "i64 - 9007199254740992", "[pi, amt, big]", "tiny * 1e6"} {
+	for _, t := range []string{"tm.a", "tm.b", "tm.z", "tm.missing", "tm.a == 0", "tm.a == null", "tm!.a", "tm.a + 1", "pi", "amt", "big", "i64", "neg", "tiny", "this.pi", "this.amt", "amt == 1234567.891", "big - 16777216", "pi * 2", "i64 - 9007199254740992", "[pi, amt, big]", "tiny * 1e6"} {
 		emitEval(o, t, 0, "-", data, true)
 	}
 	depth := 2
@@ -891,6 +901,11 @@ func suiteLiterals(o *Out, thorough bool, seed int64) {
 		}
 	})
 	o.Notes = append(o.Notes, fmt.Sprintf("exhaustive: every spelling of up to %d characters over {0,1,9,.,e,E,+,-,_} starting with a digit or '.', embedded in 6 contexts", k))
+	for _, h := range []string{"0x1f", "0xA", "0XfF", "0x0", "0x", "0xg", "0x1g", "0xffffffffffffffffffff", "0x10 + 1", "1 + 0x1 2", "00x1", "0x1.5", "0x_1", "1x1", "0b1", "0o7"} {
+		for _, c := range ctxs {
+			emitEval(o, fmt.Sprintf(c, h), 0, "1:0:0:2:0:a:N", wmap("f", "H1"), true)
+		}
+	}
 	r := newRand(seed, "literals")
 	n := 5000
 	if thorough {
